@@ -62,6 +62,10 @@ func batchPool(r *hx.Rng, code uint64, nDIDs int, big bool, suffixCode ...uint64
 			patches = []interface{}{patchJSON(map[string]interface{}{"op": "add", "path": "/blob", "value": ref.B64(r.Bytes(1100))})}
 		} else {
 			patches = genPatches(r, 2, ids)
+			if d%3 == 2 {
+				// characters that JSON encoders escape although they need not (line / paragraph separator, replacement character)
+				patches = append(patches, patchJSON(map[string]interface{}{"op": "add", "path": "/note", "value": "line one" + string(rune(0x2028)) + "two" + string(rune(0x2029)) + "three" + string(rune(0xFFFD)) + string(rune(0x7f))}))
+			}
 		}
 		origin := genOrigin(r)
 		typ := ""
@@ -554,6 +558,33 @@ func checkC13(c *hx.Ctx) {
 		}
 		jobs = append(jobs, job{e, b, hx.Pick(rr, []int64{100, 400, 401, 500, 501, 900}), "random"})
 	}
+	// requests serialised independently of the library (harness/ref: canonical form, no escape the JSON grammar does not
+	// demand) whose strings hold characters that JSON encoders like to escape: separators U+2028 / U+2029, U+FFFD, DEL, & < >
+	{
+		ir := c.Rng("independent-requests")
+		for k := 0; k < 6; k++ {
+			u := NewUniverse(ir.Split(fmt.Sprint("iu", k)), ref.SHA256, envs[0].p, []string{hx.Pick(ir, ref.KeyTypes), "P-256"})
+			odd := "line one" + string(rune(0x2028)) + "two" + string(rune(0x2029)) + "three" + string(rune(0xFFFD)) + string(rune(0x7f)) + "&<>"
+			u.Create.Delta = ref.Delta(u.U[0].Commitment(ref.SHA256), []interface{}{patchAddServices(svcEntry("s1", "hub", "https://example.com/hub")), patchJSON(map[string]interface{}{"op": "add", "path": "/note", "value": odd})})
+			u.Create.AnchorOrigin = "origin " + odd
+			u.Suffix = u.Create.Suffix()
+			cre := u.MkCreate("C", ref.DeltaOK)
+			upd := u.MkSigned("uOdd", "update", u.U[0], "", u.U[1].Commitment(ref.SHA256), []interface{}{patchJSON(map[string]interface{}{"op": "add", "path": "/note2", "value": odd})}, SignedOpts{})
+			rec := u.MkSigned("rOdd", "recover", u.R[0], u.R[1].Commitment(ref.SHA256), u.U[1].Commitment(ref.SHA256), []interface{}{patchJSON(map[string]interface{}{"op": "add", "path": "/note3", "value": odd})}, SignedOpts{Origin: "recovered " + odd})
+			mk := func(o *ref.Op, origin interface{}) *batchOp {
+				return &batchOp{ID: fmt.Sprintf("ind%d-%s", k, o.Label), Type: o.Type, Suffix: u.Suffix, Req: o.Request, Origin: origin, QOrigin: origin}
+			}
+			other := envs[0].pool[k%len(envs[0].pool)][0]
+			switch k % 3 {
+			case 0:
+				jobs = append(jobs, job{envs[0], []*batchOp{mk(cre, u.Create.AnchorOrigin), other}, 100, "independently-serialised-requests"})
+			case 1:
+				jobs = append(jobs, job{envs[0], []*batchOp{other, mk(upd, nil)}, 100, "independently-serialised-requests"})
+			default:
+				jobs = append(jobs, job{envs[0], []*batchOp{mk(rec, "recovered " + odd), other}, 100, "independently-serialised-requests"})
+			}
+		}
+	}
 	hx.Parallel(len(jobs), 16, func(i int) {
 		if c.Violations() > 10 {
 			return
@@ -566,7 +597,7 @@ func checkC13(c *hx.Ctx) {
 	c.Sample(3, map[string]interface{}{"batch": ids(jobs[len(seqs)/2].batch), "tag": jobs[len(seqs)/2].tag})
 	c.Sample(3, map[string]interface{}{"batch": ids(jobs[len(jobs)-1].batch), "tag": "random"})
 	c.Set("exhaustive_type_sequences", len(seqs))
-	for _, t := range []string{"types-distinct-dids", "repeated-suffix", "expiring-at-450", "expiring-at-600", "update-only-max", "deactivate-only-max", "single", "maximum-size", "tight-file-limits", "random", "six-operations-one-suffix", "operations-sharing-a-key", "suffix-algorithm-differs-from-controller-algorithm", "same-suffix-under-two-namespaces"} {
+	for _, t := range []string{"types-distinct-dids", "repeated-suffix", "expiring-at-450", "expiring-at-600", "update-only-max", "deactivate-only-max", "single", "maximum-size", "tight-file-limits", "random", "six-operations-one-suffix", "operations-sharing-a-key", "suffix-algorithm-differs-from-controller-algorithm", "same-suffix-under-two-namespaces", "independently-serialised-requests"} {
 		c.Floor("ok:"+t, 1)
 	}
 	c13ThroughWriter(c)
